@@ -437,6 +437,27 @@ func templates(p *prefix, thorough bool) []*tmpl {
 		t.inSeq, t.always = 8, true // the first eight in this order (a scripted prelude), X2 / X3 anywhere
 		ts = append(ts, t)
 	}
+	// T9: blocks without any spend on branches that are connected and disconnected again, at heights
+	// where an earlier, meanwhile disconnected block did spend. Undo data is kept per height: what a
+	// coinbase-only block leaves (or does not leave) there decides what its own disconnection restores.
+	// X2 spends M:1 at height +2; the Y branch spends M:1 at +1 and is empty at +2, +3; the Z branch
+	// forks off Y1 and makes the node disconnect the empty Y3, Y2.
+	{
+		x2 := sp(ops(op(p.M, 1)), outs(o1(10e8)))
+		y1 := sp(ops(op(p.M, 1)), outs(o1(9e8)))
+		t := p.mk("empty-blocks-disconnected-at-heights-of-earlier-spends", []bspec{
+			{name: "X1", parent: "P", tag: 1},
+			{name: "X2", parent: "X1", tag: 1, txs: []*reftx.Tx{x2}},
+			{name: "Y1", parent: "P", tag: 2, txs: []*reftx.Tx{y1}, fees: 1e8},
+			{name: "Y2", parent: "Y1", tag: 2},
+			{name: "Y3", parent: "Y2", tag: 2},
+			{name: "Z2", parent: "Y1", tag: 3},
+			{name: "Z3", parent: "Z2", tag: 3},
+			{name: "Z4", parent: "Z3", tag: 3},
+		})
+		t.inSeq, t.always = 5, true // X1 X2 Y1 Y2 Y3 in this order, the Z blocks anywhere
+		ts = append(ts, t)
+	}
 	// T4: equal-work ties at depth 2 and a late tie-breaker.
 	{
 		a1 := sp(ops(op(p.N, 1)), outs(o1(5e8), o1(20e8)))
